@@ -44,9 +44,9 @@ inductive PackErr where
   | panic
 deriving Repr, DecidableEq, Inhabited
 
-/-- The constant of the guard `t.SymbolMap[len(t.SymbolMap)-1].Start > 0xff` in `Pack`
-(a fact about /repo; `0x80` once fixes/C24-pack-guard.diff is applied). -/
-def asciiGuard : Int := 0xff
+/-- The constant of the guard `t.SymbolMap[len(t.SymbolMap)-1].Start > 0x80` in `Pack`
+(a fact about /repo; it was `0xff` before fixes/C24-pack-guard.diff). -/
+def asciiGuard : Int := 0x80
 
 /-- `if e+1 < len(t.SymbolMap) && t.SymbolMap[e+1].Start == rune(i) { e++ }`: the new `e`. -/
 def walkStep (t : Tables) (e i : Nat) : Nat :=
